@@ -88,7 +88,66 @@ Fixpoint hist_ok (r : ref) (ops : list op) (states : list tree) : bool :=
   | _, _ => false
   end.
 
-Definition ops : list (string * (tree -> tree)) := [
+
+(* ---------- the store of named values ---------- *)
+Definition tN (t : tree) : nat := Z.to_nat (tZ t).
+Definition tSop (t : tree) : sop :=
+  let k := tZ (tNth t 0) in
+  let a := tNth t 1 in let b := tNth t 2 in let c := tNth t 3 in
+  if k =? 1 then SApply (tN a) (tN b) (tOp c)
+  else if k =? 2 then SLines (tN a) (tOp b)
+  else if k =? 3 then SAppendText (tN a) (tN b)
+  else if k =? 4 then SAppendTextFast (tN a) (tN b)
+  else if k =? 5 then SCopyStyles (tN a) (tN b)
+  else if k =? 6 then SJoin (tN a) (tN b) (tList tN c)
+  else SAssemble (tN a) (tZ b) (tList tN c).
+
+Fixpoint shist (fx : fixes) (st : list text) (sops : list sop) : list tree :=
+  match sops with
+  | [] => []
+  | s :: rest =>
+      let r := sapply fx s st in
+      let st' := match r with Ok st' => st' | _ => st end in
+      L [I (outcome r); ofList ofText st'] :: shist fx st' rest
+  end.
+
+Fixpoint states_ok (rs : list ref) (sts : list tree) : bool :=
+  match rs, sts with
+  | [], [] => true
+  | r :: rs', s :: sts' => state_ok r s && states_ok rs' sts'
+  | _, _ => false
+  end.
+Fixpoint shist_ok (rs : list ref) (sops : list sop) (states : list tree) : bool :=
+  match sops, states with
+  | [], [] => true
+  | s :: rest, (L (I oc :: sts :: _)) :: srest =>
+      let rr := r_sapply s rs in
+      let rs' := match rr with Ok x => x | _ => rs end in
+      (outcome rr =? oc) && states_ok rs' (tL sts) && shist_ok rs' rest srest
+  | _, _ => false
+  end.
+
+Definition store_ops : list (string * (tree -> tree)) := [
+  ("store_hist", fun t =>    (* [fixes, [init...], sops] -> [[state...], [outcome, [state...]], ...] *)
+      let fx := tFixes (tNth t 0) in
+      let st0 := tList (tInit fx) (tNth t 1) in
+      L (ofList ofText st0 :: shist fx st0 (tList tSop (tNth t 2))));
+  ("store_in_domain", fun t =>
+      let st0 := tList (tInit FIXED) (tNth t 0) in
+      ofB (forallb consistent_b st0 && in_sdomain (tList tSop (tNth t 1)) (map abs st0)));
+  (* every live value, after every step, refines the store of independent reference values *)
+  ("spec.store_hist_ok", fun t =>
+      let st0 := tList (tInit FIXED) (tNth t 0) in
+      let sops := tList tSop (tNth t 1) in
+      let rs0 := map abs st0 in
+      ofB (negb (forallb consistent_b st0 && in_sdomain sops rs0)
+           || match tL (tNth t 2) with
+              | s0 :: srest => states_ok rs0 (tL s0) && shist_ok rs0 sops srest
+              | [] => false
+              end))
+].
+
+Definition ops : list (string * (tree -> tree)) := store_ops ++ [
   ("text_hist", fun t =>    (* [fixes, init, ops] -> [state0, [outcome, state1], ...] *)
       let fx := tFixes (tNth t 0) in
       let t0 := tInit fx (tNth t 1) in
